@@ -132,6 +132,25 @@ def check(run):
         oracle_fail.append((cfg, "HRUN 1 0 - " + script[:200], "255-byte string stored, 256-byte string refused cleanly (false, document intact)", str(got[:5])[:300] + (c2 or "")[-200:]))
     elif steps[3][1] != "1":
         oracle_fail.append((cfg, "HRUN 1 0 - " + script[:200], "overflowed() set when the string is too long", steps[3][1]))
+    # ... also when the document already holds strings whose lengths are congruent to the over-long one modulo 256 (a length kept
+    # in one byte must not make "abc" + 256 more bytes look like "abc"), as values and as keys, through several string kinds
+    for kind in (0, 2, 3, 6):
+        for pre in (b"", b"abc", b"k"):
+            longs = hx(pre + b"z" * 256)
+            P = hx(pre)
+            script = (f"toarr 0 @0 ;; addval 0 s{P} @0 ;; addval 0 s{longs} @0 ;; addval 0 i2 @0 ;; "
+                      f"toobj 1 @0,1 ;; setmember 1 {P} i1 @0,1 ;; setmember 1 {longs} i42 @0,1 ;; setmember 1 6f6b i3 @0,1 ;; ")
+            io, c2 = vlib.run_lines(implS, ["CFG " + cfg, f"HRUN 2 {kind} - " + script])
+            run.count(("strlen-congruent", kind, pre))
+            steps, trailer = histcheck.parse_run(io[1]) if len(io) > 1 else ([], "")
+            got = [st[0] for st in steps]
+            want = ["-|[]|n", f"true|[s{P}]|n", f"false|[s{P}]|n", f"true|[s{P},i2]|n",
+                    f"-|[s{P},i2]|{{}}", f"true|[s{P},i2]|{{{P}:i1}}", f"false|[s{P},i2]|{{{P}:i1}}", f"true|[s{P},i2]|{{{P}:i1,6f6b:i3}}"]
+            gotv = [g_.rsplit("|", 1)[0] for g_ in got]
+            if c2 or gotv != want or "leaked=0" not in trailer:
+                k = next((i for i, (a_, b_) in enumerate(zip(gotv, want)) if a_ != b_), min(len(gotv), len(want)))
+                oracle_fail.append((cfg, f"HRUN 2 {kind} - " + script[:300], f"a string of 256 + {len(pre)} bytes is refused cleanly although \"{pre.decode()}\" is already stored (step {k}: {want[k][:80] if k < len(want) else ''})",
+                                    (gotv[k] if k < len(gotv) else "missing")[:200] + (c2 or "")[-200:]))
     run.cov["rule"] = ("geometry matrix %s (slot-id bytes, pool capacity, inline pools): (a) %d tree-model histories below the limits must give the geometry-free model's observables; "
                        "(b) random and scripted alloc/free/shrinkToFit/clear histories with allocator failures on the slot allocator, exactly at / below / above 2^(8*size)-1 slots: ids < NULL_SLOT "
                        "and equal to the proved pool model's; (b') array / object histories (add, insert beyond the end, remove, member add/remove, clear, shrinkToFit, failures) incl. filling to the last slot: "
